@@ -422,6 +422,13 @@ class Lexer:
 
         func_name = convention_jmc_to_mc(command[1], tokenizer, prefix="")
         func_path = prefix + func_name
+        if func_path in Header().namespace_overrides:
+            raise JMCSyntaxException(
+                f"Function({func_path}) has the name of an overridden namespace",
+                command[1],
+                tokenizer,
+                suggestion=f"Functions of that namespace are defined as {func_path}.<name>",
+            )
         if func_path.startswith(DataPack.private_name + "/"):
             raise JMCSyntaxException(
                 f"Function({func_path}) may override private function of JMC",
@@ -662,6 +669,13 @@ class Lexer:
 
         namespace = json_name.split("/")[0]
         if namespace in Header().namespace_overrides:
+            if json_name == namespace:
+                raise JMCSyntaxException(
+                    f"JSON({json_name}) has the name of an overridden namespace",
+                    command[2],
+                    tokenizer,
+                    suggestion=f"JSON files of that namespace are defined as {json_name}.<name>",
+                )
             json_path = (
                 namespace + "/" + json_type + "/" + json_name[len(namespace) + 1 :]
             )
